@@ -17,7 +17,7 @@ RULE = ("a case is a typed list or dict field (item/key/value families with conc
         "contents, order, length, return value and result types are compared after every step; copies, + and += "
         "results must stay typed (they must reject an invalid item); non-trivial = >= 2 operations compared with "
         ">= 1 mutation; distinct = distinct (field, history)")
-REQUIRED = ("members_equal_up_to_an_inner_default_changed_in_place", "dict_equality_with_a_twin_configuration", "list_equality_with_a_twin_configuration", "dict_equality_queries", "list_equality_queries", "config_item_lists", "ops_compared", "list_ops_compared", "dict_ops_compared", "typed_result_probes", "op:setslice", "op:ior",
+REQUIRED = ("setdefault_lookups_of_existing_keys", "update_keywords_named_like_parameters", "positions_given_as_index_objects", "members_equal_up_to_an_inner_default_changed_in_place", "dict_equality_with_a_twin_configuration", "list_equality_with_a_twin_configuration", "dict_equality_queries", "list_equality_queries", "config_item_lists", "ops_compared", "list_ops_compared", "dict_ops_compared", "typed_result_probes", "op:setslice", "op:ior",
             "op:setdefault", "op:update", "op:extend", "op:iadd", "iter:iter", "iter:proxy_other", "iter:mapping",
             "update:proxy_same+kwargs", "update:proxy_other+kwargs", "update:pairs+kwargs", "iter:gen_dedup", "iter:multimap",
             "sorts_with_key_and_reverse", "members_removed_by_object", "equal_members_added")
@@ -107,6 +107,7 @@ def generate(rng, ctx):
                 op["x"] = _vals(rng, item, 1, bad)[0]
             if name in ("insert", "setitem", "pop", "delitem"):
                 op["i"] = rng.randrange(-4, 6)
+                op["index_object"] = rng.random() < 0.3
             if name in ("extend", "iadd", "add", "setslice"):
                 op["it"] = _iterable(rng, item, kinds, bad)
                 if name in ("extend", "iadd") and not cfg_items and rng.random() < 0.2:
@@ -150,6 +151,11 @@ def generate(rng, ctx):
             if name in ("update", "ior", "or"):
                 k = rng.choice(kinds if name == "update" else ["dict", "pairs", "mapping", "proxy_same", "proxy_other"])
                 op["it"] = {"kind": k, "pairs": pairs(rng.choice([0, 1, 2, 3]))}
+                if k in ("kwargs", "dict+kwargs", "pairs+kwargs") and op["it"]["pairs"] and rng.random() < 0.35 and (
+                        kf is None or kf["family"] == "str"):
+                    # keyword names that a careless signature would take for its own parameters
+                    op["it"]["pairs"][-1][0] = rng.choice(["iterable", "self", "other", "kwargs", "mapping"])
+                    op["it"]["named_like_parameters"] = True
                 if k == "multimap":
                     # a multi-valued mapping (like e-mail headers): one name twice with different values
                     ps = pairs(3)
@@ -369,6 +375,17 @@ def _make_iter(cc, cfg, f, it, is_list):
     raise ValueError(kind)
 
 
+class _Index:
+    def __init__(self, i):
+        self.i = i
+
+    def __index__(self):
+        return self.i
+
+    def __repr__(self):
+        return "Index(%d)" % self.i
+
+
 def _field(cfg, key):
     import cincoconfig
 
@@ -517,8 +534,12 @@ def _list_op(cc, cfg, f, proxy, ref, op, res):
                 want = None
         except Exception:
             raise Skip()
-        fn = {"append": lambda: proxy.append(x), "insert": lambda: proxy.insert(op["i"], x),
-              "setitem": lambda: proxy.__setitem__(op["i"], x)}[name]
+        pos = op.get("i")
+        if pos is not None and op.get("index_object"):
+            pos = _Index(pos)  # an object with __index__ (numpy integers, enum members ...) is a position like any int
+            res.count("positions_given_as_index_objects")
+        fn = {"append": lambda: proxy.append(x), "insert": lambda: proxy.insert(pos, x),
+              "setitem": lambda: proxy.__setitem__(pos, x)}[name]
         if not ok:
             return ("invalid-raised", None) if _expect_raise(fn) else ("viol", "invalid item %r was accepted" % (op["x"],))
         try:
@@ -801,6 +822,17 @@ def _dict_op(cc, cfg, f, proxy, ref, op, res):
             fn = lambda: proxy.setdefault(k, rv)  # noqa: E731
         else:
             fn = lambda: proxy.setdefault(k)  # noqa: E731
+        if name == "setdefault" and ok1 and nk in ref and (not has_v or not ok2):
+            # setdefault(key[, default]) for a key that is there only looks the value up and stores nothing, whatever the
+            # value field thinks of None (or of a default that it would refuse): the builtin does not look at it either
+            res.count("setdefault_lookups_of_existing_keys")
+            try:
+                got = fn()
+            except Exception as exc:
+                return "viol", "setdefault(%r) for an existing key raised %r, builtin returns %r" % (op["k"], exc, ref[nk])
+            if not eqstar(plain(got), ref[nk]):
+                return "viol", "setdefault(%r) for an existing key returned %r, builtin returns %r" % (op["k"], got, ref[nk])
+            return "ok", None
         if not (ok1 and ok2):
             return ("invalid-raised", None) if _expect_raise(fn) else ("viol", "invalid entry %r: %r was accepted" % (op["k"], v))
         trial = dict(ref)
@@ -828,6 +860,8 @@ def _dict_op(cc, cfg, f, proxy, ref, op, res):
             return None
         if kind.endswith("+kwargs") and not all(isinstance(k, str) for k, _ in pairs[half:]):
             return None
+        if it.get("named_like_parameters"):
+            res.count("update_keywords_named_like_parameters")
         pos_it = {"kind": base, "pairs": pairs[:half]}
         if not all(_hashable(spec.realize(cc, k)) for k, _ in pairs):
             return None
